@@ -303,6 +303,11 @@ type vConn struct {
 	id     int
 	proxy  *ProxyServerProtocol
 	closed bool
+	// command objects are recycled per connection exactly like BinaryServerProtocol's free stack does: a command the
+	// engine hands back (FreeLockCommand) is the object the NEXT request of this connection is decoded into, so a
+	// command freed while a Lock record still points at it shows up as a hold whose terms change under it
+	poolMu sync.Mutex
+	pool   []*protocol.LockCommand
 }
 
 func (w *vWorld) conn(id int) *vConn {
@@ -353,10 +358,27 @@ func (c *vConn) ProcessLockResultCommandLocked(command *protocol.LockCommand, re
 
 func (c *vConn) GetLockCommand() *protocol.LockCommand { return c.GetLockCommandLocked() }
 func (c *vConn) GetLockCommandLocked() *protocol.LockCommand {
+	c.poolMu.Lock()
+	defer c.poolMu.Unlock()
+	if n := len(c.pool); n > 0 {
+		cmd := c.pool[n-1]
+		c.pool = c.pool[:n-1]
+		return cmd
+	}
 	return &protocol.LockCommand{Command: protocol.Command{Magic: protocol.MAGIC, Version: protocol.VERSION}}
 }
-func (c *vConn) FreeLockCommand(command *protocol.LockCommand) error       { return nil }
-func (c *vConn) FreeLockCommandLocked(command *protocol.LockCommand) error { return nil }
+func (c *vConn) FreeLockCommand(command *protocol.LockCommand) error { return c.FreeLockCommandLocked(command) }
+func (c *vConn) FreeLockCommandLocked(command *protocol.LockCommand) error {
+	if command == nil {
+		return nil
+	}
+	c.poolMu.Lock()
+	if len(c.pool) < 64 {
+		c.pool = append(c.pool, command)
+	}
+	c.poolMu.Unlock()
+	return nil
+}
 
 // ---------------------------------------------------------------- requests
 
@@ -383,7 +405,9 @@ type vReq struct {
 }
 
 func (w *vWorld) buildCommand(id int64, r *vReq) *protocol.LockCommand {
-	cmd := &protocol.LockCommand{Command: protocol.Command{Magic: protocol.MAGIC, Version: protocol.VERSION}}
+	// the request is "decoded" into a command object of its connection's free stack (every field overwritten)
+	cmd := w.conn(r.Conn).GetLockCommandLocked()
+	*cmd = protocol.LockCommand{Command: protocol.Command{Magic: protocol.MAGIC, Version: protocol.VERSION}}
 	if r.Op == "lock" {
 		cmd.CommandType = protocol.COMMAND_LOCK
 	} else {
